@@ -14,14 +14,14 @@ META.update({
     "still delivered, the rest never) and is then dead with a non-zero exit code - including d = everything (died after the "
     "sentinel).  Assertion: whenever some worker has a death point the run ends with SystemExit of non-zero code - never a "
     "normal return, never loop-fuel exhaustion inside the idle budget; without a fault it behaves as in C11.",
-    "bounds": {"quick": "(W,B,records,T) in {(1,1,1,1), (1,2,2,1), (1,1,2,1)} x every death point of every worker",
+    "bounds": {"quick": "(W,B,records,T) in {(1,1,1,1), (1,2,2,1), (1,1,2,1)} x every death point of every worker, plus the two-worker round (2,1,2,0)",
                "thorough": "adds (2,1,2,1), (1,2,3,1), (2,1,2,2), (2,2,4,1), (3,1,3,1)"},
     "out": c11.META["out"] + ["a worker killed while its feeder thread holds the queue's write lock: the surviving workers then block "
                              "forever and the parent keeps waiting (a real hang that a model with atomic deliveries cannot see)"],
 })
 
 CONFIGS = {
-    "quick": [(1, 1, 1, 1), (1, 2, 2, 1), (1, 1, 2, 1), (2, 1, 1, 1)],
+    "quick": [(1, 1, 1, 1), (1, 2, 2, 1), (1, 1, 2, 1), (2, 1, 1, 1), (2, 1, 2, 0)],
     "thorough": [(1, 1, 1, 1), (1, 2, 2, 1), (1, 1, 2, 1), (2, 1, 2, 1), (1, 2, 3, 1), (2, 1, 2, 2), (2, 2, 4, 1), (3, 1, 3, 1)],
 }
 
